@@ -103,7 +103,7 @@ func TestC02(t *testing.T) {
 		}
 	}
 
-	rcheck(t, "single", V.N(2000, 8000), func(rt *rapid.T) {
+	rcheck(t, "single", V.N(2000, 20000), func(rt *rapid.T) {
 		entry := rapid.IntRange(0, 2).Draw(rt, "entry")
 		l := s.in.cfg.Listens[entry]
 		var sender *labEP
@@ -292,7 +292,7 @@ func TestC02(t *testing.T) {
 		}
 	})
 
-	rcheck(t, "histories", V.N(150, 600), func(rt *rapid.T) {
+	rcheck(t, "histories", V.N(150, 1500), func(rt *rapid.T) {
 		var open []*c02Txn
 		maxOpen := 0
 		outOfOrder := false
